@@ -136,6 +136,7 @@ def run(tier):
     ck.cov['exhaustive'] = False
     ck.assumptions += ['releases enter through Banner.parse/Software.parse with the product banner spellings of the repo tests',
                        'pairs differing only by trailing .0 components are not ordered by the property and are skipped']
+    frames_leg(ck, rnd, tier)
     # CLI leg: shared with C13
     try:
         from checks import c13
@@ -158,3 +159,58 @@ def _classify(a, b):
         if x != y:
             return 'component-width-differs' if len(str(x)) != len(str(y)) else 'same-width-components'
     return 'prefix'
+
+
+def frames_leg(ck, rnd, tier):
+    """Compatibility ranges: newest first-appeared / oldest last-supported release among a set, by the numeric order (TLC),
+    replayed into Timeframe (the '(gen) compatibility' line is rendered from it)."""
+    from ssh_audit.timeframe import Timeframe
+    comps = [0, 1, 2, 7, 9, 10, 11, 99, 100, 2013, 2020]
+    cases = []
+    for _ in range(400 if tier == 'quick' else 4000):
+        prod = rnd.choice(['OpenSSH', 'Dropbear SSH'])
+
+        def ver():
+            return [rnd.choice(comps) for _ in range(rnd.randint(2, 3))]
+        since = [ver() for _ in range(rnd.randint(1, 4))]
+        till = [ver() for _ in range(rnd.randint(0, 3))]
+        if till:
+            since.append([0, 1])
+        cases.append({'product': prod, 'since': [{'c': v, 'p': ['none', 0]} for v in since], 'till': [{'c': v, 'p': ['none', 0]} for v in till]})
+    res = tlc.run('SshVersion', 'SPECIFICATION Spec\nCONSTANT Mode = "frames"\nINVARIANT EmitFrames\n', generated={'cases.json': json.dumps(cases)},
+                  env={'VERIF_CASES': 'cases.json'}, workers=1)
+    ck.add_tlc(res)
+    common.require(res.ok, 'SshVersion (frames): %s' % res.error_text)
+    exp = [p for p in res.prints if isinstance(p, list)]
+    common.require(len(exp) >= 1 and len(exp[0]) == len(cases), 'TLC did not emit the expected compatibility frames')
+    exp = exp[0]
+    pre = {'OpenSSH': '', 'Dropbear SSH': 'd'}
+    for c, e in zip(cases, exp):
+        ck.evaluated()
+        tf = Timeframe()
+        p = pre[c['product']]
+        txt = lambda v: '.'.join(str(x) for x in v['c'])
+        nt = len(c['till'])
+        plain_since = c['since'][:-1] if nt else c['since']
+        for v in plain_since:
+            tf.update([p + txt(v)], True)
+        for v in c['till']:
+            tf.update([p + '0.1', p + txt(v)], True)
+        got_from, got_till = tf.get_from(c['product'], True), tf.get_till(c['product'], True)
+        want_from = '.'.join(str(x) for x in e['from'])
+        want_till = '.'.join(str(x) for x in e['till']) if e['till'] else None
+        # a version and the same version with trailing .0 components are not ordered by the property: skip ambiguous sets
+        def amb(vs):
+            ts = [tuple(v['c']) for v in vs]
+            return any(a != b and (a[:len(b)] == b and not any(a[len(b):]) or b[:len(a)] == a and not any(b[len(a):])) for a in ts for b in ts)
+        if amb(c['since']) or amb(c['till']):
+            continue
+        if got_from != want_from or got_till != want_till:
+            ck.violation('compatibility-range product=%s' % c['product'].replace(' ', ''),
+                         '%s: first-appeared releases %r / last-supported %r give range %r..%r, numeric order gives %r..%r'
+                         % (c['product'], [txt(v) for v in c['since']], [txt(v) for v in c['till']], got_from, got_till, want_from, want_till),
+                         {'case': c, 'tool': [got_from, got_till], 'expected': [want_from, want_till]})
+        else:
+            ck.cov['traces_validated_against_impl'] += 1
+            ck.nontrivial(('frame', c['product'], tuple(tuple(v['c']) for v in c['since']), tuple(tuple(v['c']) for v in c['till'])))
+    ck.notes.append('compatibility ranges: %d sets of releases replayed into Timeframe' % len(cases))
